@@ -2256,10 +2256,14 @@ def _config_str(
 
   import_manager = ImportManager(_IMPORTS)
   if import_manager.dynamic_registration:
-    for _, selector in configuration_object:
-      import_manager.require_configurable(_REGISTRY[selector])
-    for reference in iterate_references(configuration_object):
-      import_manager.require_configurable(reference.configurable)
+    required = [_REGISTRY[selector] for _, selector in configuration_object]
+    required.extend(
+        reference.configurable
+        for reference in iterate_references(configuration_object))
+    # In a fixed order: the aliases handed out to colliding module names must
+    # not depend on the order in which the bindings were made.
+    for configurable_ in sorted(required, key=lambda c: c.selector):
+      import_manager.require_configurable(configurable_)
 
   # Build the output as an array of formatted Gin statements. Each statement may
   # span multiple lines. Imports are first, followed by macros, and finally all
